@@ -288,6 +288,12 @@ func (ev *c10Eval) execStmt(s ast.Stmt, st c10State, depth int, named []types.Ob
 		if !ok {
 			return unsupported("expression statement")
 		}
+		if env2, handled, why := ev.builderStmt(call, st.env, depth); handled {
+			if why != "" {
+				return unsupported(why)
+			}
+			return next(env2)
+		}
 		// a call evaluated for its effects: slices passed along could be modified by it
 		for _, a := range call.Args {
 			if id, ok := ast.Unparen(a).(*ast.Ident); ok {
